@@ -494,7 +494,7 @@ def check_als_func(ctx, rng, quick):
     """Functional version: shape / ranks, descent from sweep to sweep, optimality of some core (the one updated last),
     restart equivalence, sample order; boxes [a, b] of every kind, with sample points inside and outside the box
     (the library's model clamps outside points to the boundary, as func_get(skip_out=False) does)."""
-    for t in range(12 if quick else 90):
+    for t in range(16 if quick else 90):
         d = int(rng.integers(2, 4))
         n = int(rng.integers(2, 5))
         r = int(rng.integers(1, 3))
@@ -510,6 +510,19 @@ def check_als_func(ctx, rng, quick):
         Xs = np.clip((2. * X - (b + a)) / (b - a), -1., 1.)
         H = [teneva.func_basis(Xs[:, k], n).T for k in range(d)]        # m x n, Chebyshev basis at the scaled, clamped points
         kw = {} if box == (-1., 1.) and t % 5 == 0 else dict(a=a, b=b)
+        custom = t % 3 == 1
+        if custom:
+            # user-supplied bases (fh): one callable for all modes, or a different callable per mode, with and without the
+            # optional size limit n_max (equal to the basis size: no effect); the objective is evaluated with these bases
+            def mk(k_, n_=n):
+                return lambda x, k_=k_, n_=n_: np.array([np.cos(j_ * np.asarray(x) + 0.3 * k_) for j_ in range(n_)])
+            per_mode = (t // 3) % 2 == 0
+            fhs = [mk(k_ if per_mode else 0) for k_ in range(d)]
+            H = [fhs[k_](X[:, k_]).T for k_ in range(d)]
+            kw = dict(fh=fhs if per_mode else fhs[0], thr_pow=0.)
+            if (t // 6) % 2 == 0:
+                kw['n_max'] = n
+            box = ('custom basis', 'per mode' if per_mode else 'shared', 'n_max' in kw)
 
         def interf(A, k):
             L = np.ones((m, 1))
